@@ -19,7 +19,7 @@ RULE = ("sequences of 1-4 cubes of 1-3 dims (lengths 5-8) whose WCS (probe separ
         "Non-trivial = at least one supplied coordinate; distinct = whole case")
 TRUSTED = ["each cube's own box is computed from the generating pixel positions and the known shift, never through the inverse transform",
            "numpy indexing of the cubes' data (reference for seq[:, box])"]
-ASSUMPTIONS = ["points lie on every cube of the sequence (positions at least one pixel inside, shifts of at most one pixel)",
+ASSUMPTIONS = ["points lie on every cube of the sequence (positions at least one pixel inside where cubes are shifted, shifts of at most one pixel; first / last pixel only along unshifted axes)",
                "on the exact probe family the shifted offsets are no longer exact; positions stay at least 0.025 pixel away from pixel edges",
                "positions keep 1/8 pixel away from pixel edges"]
 FAMILIES = ["probe", "probe_coupled", "fits_sep", "fits_cel", "fits_rot", "gwcs"]
@@ -63,6 +63,21 @@ def generate(rng, tier):
             if rng.random() < 0.3 and pts:
                 pix = [pts[0]["pix"][a] if rng.random() < 0.7 else x for a, x in enumerate(pix)]   # one-element-wide boxes
             pts.append({"pix": pix, "none_bits": rng.choice([0, 0, 0, 1, 2, 3])})
+        # on axes along which no cube is shifted a point may sit in the first / last pixel: the common box then
+        # starts at 0 or reaches the end of the array
+        for a in range(nd):
+            if all(sh[a] == 0 for sh in shifts) and rng.random() < 0.35:
+                p = rng.choice(pts)
+                p["pix"][a] = rng.choice([0 + rng.choice([0, 0.25]), shape[a] - 1 - rng.choice([0, 0.25])])
+        if not ec_shift and ncubes >= 2 and rng.random() < 0.1:
+            # targeted: identical cubes and a box that runs to the end of every axis but does not start at 0
+            shifts = [[0] * nd for _ in range(ncubes)]
+            if len(pts) < 2:
+                pts.append({"pix": list(pts[0]["pix"]), "none_bits": pts[0]["none_bits"]})
+            for a in range(nd):
+                pts[0]["pix"][a] = shape[a] - 1 - rng.choice([0, 0.25])
+                for p in pts[1:]:
+                    p["pix"][a] = max(p["pix"][a], 1)
         yield {"shape": shape, "fam": fam, "wseed": rng.randrange(10**6), "ecs": ecs, "which": which, "shifts": shifts,
                "points": pts, "form": form, "share_wcs": share}
 
